@@ -4,6 +4,9 @@ pub mod c06;
 pub mod c07;
 pub mod c08;
 pub mod c09;
+pub mod c11;
+pub mod c19;
+pub mod c20;
 pub mod util;
 
 use crate::engine::Tier;
@@ -18,6 +21,9 @@ pub fn dispatch(id: &str, tier: Tier, seed: u64) -> Option<i32> {
         "C08" => c08::run(tier, seed),
         "C09" => c09::run(c09::Mode::C09, tier, seed),
         "C12" => c09::run(c09::Mode::C12, tier, seed),
+        "C11" => c11::run(tier, seed),
+        "C19" => c19::run(tier, seed),
+        "C20" => c20::run(tier, seed),
         _ => return None,
     })
 }
@@ -26,6 +32,8 @@ pub fn dispatch(id: &str, tier: Tier, seed: u64) -> Option<i32> {
 pub fn replay_kind(kind: &str, j: &serde_json::Value) -> Option<Vec<String>> {
     match kind {
         "parse" => Some(c09::replay_parse(j)),
+        "bind" => Some(c11::replay_bind(j)),
+        "layout" => Some(c20::replay_layout(j)),
         _ => None,
     }
 }
